@@ -23,7 +23,8 @@ BOUNDS = {
     "quick": {"layouts": "canonical chunk layouts: <= 3 chunks, chunk lengths in {1,2}, neighbouring colors differ (15 layouts)",
               "ints": "slice bounds a,b (each optionally None): ALL ints (unbounded symbolic); index i: all in-range values + 6 out-of-range values each side (the IndexError message formats i, which the engine can only enumerate); fixed_len length 0..len+6; format width 0..len+3, fill from 5 characters incl. digits/align characters",
               "construction": "raw layouts <= 3 parts, part lengths 0..2, 3 colors, 6 construction routes (symbolic choices, enumerated by the solver)",
-              "sequences": "2-operation sequences: slice-then-slice and concat-then-slice on 2-chunk layouts"},
+              "sequences": "2-operation sequences: slice-then-slice and concat-then-slice on 2-chunk layouts; every CHText result is then appended to in place and the operands re-observed (aliasing); "
+                           "a text as its own operand (t += t, t + t, t += t[a:b], t.join([t, t])) under a 1 s watchdog"},
     "thorough": {"layouts": "canonical layouts: <= 3 chunks, lengths in {1,2,3} (40 layouts); <= 4 chunks lengths {1,2} for slices",
                  "ints": "as quick; format width 0..len+6, 8 fill characters", "construction": "raw layouts <= 4 parts, part lengths 0..2",
                  "sequences": "2-operation sequences on all 2- and 3-chunk layouts with lengths {1,2}"},
@@ -119,6 +120,69 @@ def _expect_eq(t, model, what):
         raise Violation(f"eq-str :: {what}: comparison with the plain str gives {t == plain}, expected {all_default}")
 
 
+def _expect_independent(r, operands, what):
+    """operation results are objects of their own (as for str): appending to the result in place must not change an operand"""
+    from ak.color import CHText
+    if not isinstance(r, CHText):
+        return
+    r += "!"
+    for t, model in operands:
+        if not _same(_observe(t), model):
+            what = what() if callable(what) else what        # (lazily: formatting a symbolic bound would enumerate it)
+            raise Violation(f"aliasing :: {what}: appending to the result in place changed an operand to {_observe(t)} (the result shares state with it)")
+
+
+class _Deadline:
+    """plain-Python watchdog for operations that must terminate (SIGALRM in the worker's / replay's main thread)"""
+
+    def __init__(self, seconds, what):
+        self.seconds, self.what = seconds, what
+
+    def _fire(self, *a):
+        raise Violation(f"no-termination :: {self.what} did not finish within {self.seconds} s")
+
+    def __enter__(self):
+        import signal
+        self.old = signal.signal(signal.SIGALRM, self._fire)
+        signal.setitimer(signal.ITIMER_REAL, self.seconds)
+
+    def __exit__(self, *a):
+        import signal
+        signal.setitimer(signal.ITIMER_REAL, 0)
+        signal.signal(signal.SIGALRM, self.old)
+        return False
+
+
+def h_self_operand(op: int, a: int, b: int, shard=None) -> None:
+    """a text used as its own operand: t += t, t + t, t += t[a:b], t.join([t, t])"""
+    from ak.color import CHText
+    from vf.xh import concrete
+    reject_unless(0 <= op < 4)
+    t, model = _build_canonical(shard["lens"], shard["cols"])
+    n = len(model)
+    reject_unless(-n - 1 <= a <= n + 1 and -n - 1 <= b <= n + 1)
+    op, a, b = realize(op), realize(a), realize(b)
+    with concrete():
+        what = ["t += t", "t + t", f"t += t[{a}:{b}]", "t.join([t, t])"][op]
+        with _Deadline(1.0, what + f" on lens={shard['lens']} cols={shard['cols']}"):
+            if op == 0:
+                t += t
+                r, exp = t, model + model
+            elif op == 1:
+                r, exp = t + t, model + model
+            elif op == 2:
+                lo, hi = _norm(a, n, False, 0), _norm(b, n, False, n)
+                t += t[a:b]
+                r, exp = t, model + ([model[k] for k in range(lo, hi)] if lo < hi else [])
+            else:
+                r, exp = t.join([t, t]), model * 3
+        got = _observe(r)
+        if not _same(got, exp):
+            raise Violation(f"self-operand :: {what} on lens={shard['lens']} cols={shard['cols']} gives {got}, expected {exp}")
+        if len(r) != len(exp):
+            raise Violation(f"self-operand-len :: {what}: len == {len(r)}, {len(exp)} characters")
+
+
 # ---------------------------------------------------------------------------------------------------
 def h_index(i: int, shard=None) -> None:
     t, model = _build_canonical(shard["lens"], shard["cols"])
@@ -151,6 +215,7 @@ def h_slice(a: int, b: int, a_none: bool, b_none: bool, shard=None) -> None:
     if not _same(got, exp):
         raise Violation(f"slice :: t[{None if a_none else a}:{None if b_none else b}] gives {got}, expected {exp}")
     _expect_eq(r, exp, "slice")
+    _expect_independent(r, [(t, model)], lambda: f"t[{None if a_none else a}:{None if b_none else b}]")
 
 
 def h_slice_slice(a: int, b: int, c: int, d: int, shard=None) -> None:
@@ -174,10 +239,19 @@ def h_slice_slice(a: int, b: int, c: int, d: int, shard=None) -> None:
 def h_concat_slice(a: int, b: int, which: int, shard=None) -> None:
     """(t + u)[a:b], (t += u)[a:b], ('xy' + t)[a:b], (t + 'xy')[a:b]; the operands must stay unchanged"""
     from ak.color import CHText
-    reject_unless(0 <= which < 4)
+    reject_unless(0 <= which < 7)
     t, model = _build_canonical(shard["lens"], shard["cols"])
     u, model_u = _build_canonical(list(reversed(shard["lens"])), shard["cols"])
-    if which == 0:
+    if which == 4:
+        r = "" + t
+        m = list(model)
+    elif which == 5:
+        r = t + ""
+        m = list(model)
+    elif which == 6:
+        r = t + CHText()
+        m = list(model)
+    elif which == 0:
         r = t + u
         m = model + model_u
     elif which == 1:
@@ -201,6 +275,7 @@ def h_concat_slice(a: int, b: int, which: int, shard=None) -> None:
     got = _observe(r[a:b])
     if not _same(got, exp):
         raise Violation(f"concat-slice :: route {which} [{a}:{b}] gives {got}, expected {exp}")
+    _expect_independent(r, [(t, model), (u, model_u)], f"concatenation route {which}")
 
 
 def h_fixed_len(ln: int, shard=None) -> None:
@@ -217,7 +292,8 @@ def h_fixed_len(ln: int, shard=None) -> None:
         raise Violation(f"fixed_len :: fixed_len({ln}) gives {got}, expected {exp}")
     if len(r) != ln:
         raise Violation(f"fixed_len-len :: len(fixed_len({ln})) == {len(r)}")
-    _expect_eq(r, exp, f"fixed_len({ln})")
+    _expect_eq(r, exp, "fixed_len")
+    _expect_independent(r, [(t, model)], lambda: f"fixed_len({ln})")
     if not _same(_observe(t), model):
         raise Violation("fixed_len-aliasing :: the original text was modified")
 
@@ -398,7 +474,7 @@ def h_join(sep_len: int, sep_col: int, n_items: int, l0: int, l1: int, l2: int, 
     for idx, (ln, c) in enumerate(zip(lens, cols)):
         txt = LETTERS[k:k + ln]
         k += ln
-        items.append(txt if c == 0 else fm[c](txt))
+        items.append(txt if c == 0 else (CHText(fm[c](txt)) if idx % 2 == 0 else fm[c](txt)))
         if idx:
             model.extend((x, sep_chunk.c_prefix) for x in sep_txt)
         model.extend((x, fm[c]._color_prefix) for x in txt)
@@ -407,6 +483,10 @@ def h_join(sep_len: int, sep_col: int, n_items: int, l0: int, l1: int, l2: int, 
     if not _same(got, model):
         raise Violation(f"join :: gives {got}, expected {model}")
     _expect_eq(t, model, "join")
+    ops = [(x, [(ch, x.chunks[0].c_prefix if x.chunks else "") for ch in x.plain_text()]) for x in items if isinstance(x, CHText)]
+    if not chunk_sep:
+        ops.append((sep, [(ch, sep_chunk.c_prefix) for ch in (sep_txt if sep_txt else "")]))
+    _expect_independent(t, ops, "join")
 
 
 # ---------------------------------------------------------------------------------------------------
@@ -454,6 +534,9 @@ def jobs(tier: str) -> List[Job]:
         tag = "".join(map(str, l["lens"])) + "/" + "".join(map(str, l["cols"]))
         js.append(Job(__name__, "h_slice_slice", shard=l, budget_s=b * 2, label=f"slice_slice:{tag}"))
         js.append(Job(__name__, "h_concat_slice", shard=l, budget_s=b * 2, label=f"concat_slice:{tag}"))
+    for l in [x for x in lays if 1 <= len(x["lens"]) <= 3 and (t or sum(x["lens"]) <= 4)]:
+        tag = "".join(map(str, l["lens"])) + "/" + "".join(map(str, l["cols"]))
+        js.append(Job(__name__, "h_self_operand", shard=l, budget_s=b, label=f"self_operand:{tag}", must_exhaust=True))
     for l in [x for x in lays if len(x["lens"]) == 1]:
         tag = "".join(map(str, l["lens"])) + "/" + "".join(map(str, l["cols"]))
         for op in range(3):
